@@ -464,7 +464,11 @@ class Message:
             self.opt.block1 = block1
             self.token = next_block.token
             self.mid = next_block.mid
-            if not block1.more and next_block.opt.block2 is not None:
+            if not block1.more:
+                # The final block is the request that gets answered: its
+                # Block2 option -- or its absence -- says which part of the
+                # response is asked for, not one sent along with an earlier
+                # block.
                 self.opt.block2 = next_block.opt.block2
         else:
             # possible extension point: allow messages with "gaps"; then
